@@ -7,10 +7,11 @@ EXPLANATION = ("Static rules over quinn-proto/quinn MIR: (a) every site that tak
                "Retry / 0-RTT reject / space discard / forgotten tail); (b) in the lost class the packet's stream_frames always flow to "
                "StreamsState::retransmit and its retransmits to the space's pending set; the lost MTU probe carries nothing to resend; (c) in the "
                "acked class stream_frames flow to received_ack_of and reset_stream ids to reset_acked; (d) the Retry 0-RTT re-queue; (e) single-caller "
-               "chains for SendBuffer::ack / retransmit; (f) single feeder chain into the receive Assembler; (g) Chunks::next reports end-of-stream only "
+               "chains for SendBuffer::ack / retransmit, called with exactly the acked / lost frame, and the split of a popped lost range in SendBuffer::poll_transmit returns "
+               "start..end and re-queues end..range.end from the same `end`; (f) single feeder chain into the receive Assembler; (g) Chunks::next reports end-of-stream only "
                "when the final size is known AND everything up to it was read, and a reset with the stored code; (h) STREAM frame bytes come from the "
                "polled SendBuffer range (shared with C05.f); (i) the ordered->unordered switch records the consumed prefix as received; the async "
-               "ReadToEnd starts from an unset offset. Byte-exactness of Assembler/SendBuffer/RangeSet arithmetic is NOT decided.")
+               "ReadToEnd starts from an unset offset. Byte-exactness of Assembler/RangeSet arithmetic and of SendBuffer beyond that split is NOT decided.")
 RULE = "rule instances = (rule, site) pairs over MIR call sites / flows / branches; non-trivial = bound to at least one real site"
 
 
@@ -27,40 +28,161 @@ def rule_a(ctx):
     ctx.floor('a', 'producers', n, 7)
 
 
+# --------------------------------------------------------------------------
+# structural helpers (exact shapes instead of "mentions X somewhere")
+# --------------------------------------------------------------------------
+
+def _meth(sh):
+    """last path segment of a callee short name (`<X as Tr>::m` -> `m`)"""
+    return sh.rsplit('::', 1)[-1]
+
+
+def _is_call(d, *pats):
+    """d IS a call of one of pats (not: contains one)"""
+    return isinstance(d, tuple) and d[0] == 'call' and (d[1] in pats or D._trait_form(d[1]) in pats or any(path_matches(d[2], p) for p in pats))
+
+
+def _is(d, site):
+    """d IS the result of the call site (no phi, no wrapper)"""
+    return isinstance(d, tuple) and d[0] == 'call' and len(d) > 4 and d[4] == site.bb and short(site.f) == d[1]
+
+
+def _is_pfield(d, pname, *fields):
+    """d is exactly `<param pname>.f1.f2..`"""
+    for f in reversed(fields):
+        if d[0] != 'field' or d[2] != f:
+            return False
+        d = d[1]
+    return d[0] == 'param' and d[2] == pname
+
+
+def _some_payload(d):
+    """`(X as Some).0` / `X.unwrap()` / `X.expect(..)` -> X, else None"""
+    if d[0] == 'field' and d[2] == '0' and d[1][0] == 'variant' and d[1][2] in ('Some', 'Ok'):
+        return d[1][1]
+    if d[0] == 'call' and _meth(d[1]) in ('unwrap', 'expect', 'unwrap_unchecked') and d[3]:
+        return d[3][0]
+    return None
+
+
+def _payload_of(d, site):
+    x = _some_payload(d)
+    return x is not None and _is(x, site)
+
+
+def _nobb(d):
+    """descriptor with call-site blocks erased: the same expression evaluated at two sites compares equal"""
+    if not isinstance(d, tuple):
+        return d
+    if d and d[0] == 'call' and len(d) > 4:
+        return ('call', d[1], d[2], tuple(_nobb(x) for x in d[3]))
+    if d and d[0] == 'bin' and len(d) > 4:
+        return ('bin', d[1], _nobb(d[2]), _nobb(d[3]))
+    return tuple(_nobb(x) for x in d)
+
+
+# iterator adaptors / views that yield every element of their receiver exactly once
+_ELEMENTWISE = ('iter', 'iter_mut', 'into_iter', 'cloned', 'copied', 'by_ref', 'deref', 'deref_mut', 'as_slice', 'as_mut_slice', 'as_ref', 'as_mut')
+
+
+def _peel_iter(d):
+    while d[0] == 'call' and _meth(d[1]) in _ELEMENTWISE and len(d[3]) == 1:
+        d = d[3][0]
+    return d
+
+
+def _for_loop(F, body, sink, argi, proj=()):
+    """The argument `argi` of call `sink` is (the field path `proj` of) the element bound by a loop on `Iterator::next`,
+    every iteration reaches the sink, and after the sink the loop continues with the next element.
+    Returns dict(H = block of the `next` call, X = the iterated value with element-preserving adaptors peeled,
+    S / N = targets of the Some / None edge) or a str saying what is wrong."""
+    a = arg_desc(F, sink, argi)
+    for f in reversed(proj):
+        if a[0] != 'field' or a[2] != f:
+            return 'argument is not `.%s` of a loop element: %s' % ('.'.join(proj), D.render(a)[:160])
+        a = a[1]
+    nxt = _some_payload(a)
+    if not (a[0] == 'field' and nxt is not None and nxt[0] == 'call' and _meth(nxt[1]) == 'next' and len(nxt[3]) == 1 and len(nxt) > 4):
+        return 'argument is not the element of a loop: %s' % D.render(a)[:160]
+    H = nxt[4]
+    brs = [br for br in branches(F, body) if br.desc[0] == 'discr' and br.desc[1][0] == 'call' and len(br.desc[1]) > 4 and br.desc[1][4] == H and br.desc[1][1] == nxt[1]]
+    if len(brs) != 1:
+        return 'loop header branch on the iterator result not found'
+    br = brs[0]
+    S, N = br.target(1), br.target(0)
+    rets = set(body.return_blocks())
+    p = path_avoiding(body, [S], rets | {H}, {sink.bb})
+    if p:
+        return 'an iteration can skip the call: ' + fmt_path(body, p)
+    if sink.t is not None:
+        p = path_avoiding(body, [sink.t], rets, {H})
+        if p:
+            return 'the loop can be left after the call without visiting the remaining elements: ' + fmt_path(body, p)
+    return {'H': H, 'X': _peel_iter(nxt[3][0]), 'S': S, 'N': N, 'br': br}
+
+
+def _none_edges(F, body, pred):
+    """(from, to) of the None/Err edge of every branch on the discriminant of a value satisfying pred"""
+    return {(br.bb, br.target(0)) for br in branches(F, body) if br.desc[0] == 'discr' and pred(br.desc[1])}
+
+
+BITOR = ['BitOrAssign::bitor_assign', 'Retransmits::bitor_assign']
+
+
 def rule_b(ctx):
     F = ctx.facts
     dl = ctx.pfn('Connection::detect_lost_packets')
     takes = dl.calls_to('PacketSpace::take')
     ctx.floor('b', 'lost_take_sites', len(takes), 2)
-    # the lost class = takes inside the `for &packet in &lost_packets` loop; the other is the lost MTU probe
+    rets = dl.return_blocks()
+    # the lost class = every take whose packet number is not exactly the in-flight MTU probe
     n_lost = 0
     for c in takes:
         a = arg_desc(F, c, 1)
-        is_probe = D.render(a).find('lost_mtu_probe') >= 0 or D.has_call(a, 'MtuDiscovery::in_flight_mtu_probe')
+        # probe class: the number taken is `(x as Some).0` / unwrap of a value whose every non-None source IS the result
+        # of MtuDiscovery::in_flight_mtu_probe() (decided on the value, not on the name of the local that carries it)
+        src = _some_payload(a)
+        alts = [x for x in flat(src)] if src is not None else []
+        alts = [x for x in alts if not (x[0] == 'agg' and x[2].endswith('Option::None'))]
+        is_probe = bool(alts) and all(_is_call(x, 'MtuDiscovery::in_flight_mtu_probe') and _is_pfield(x[3][0], 'self', 'path', 'mtud') for x in alts)
         if is_probe:
             # the probe packet is built with SentFrames{non_retransmits: true, ..Default}: checked at its construction site
             ctx.ok('b', 'lost_mtu_probe_class', dl, c.where(), 'lost MTU probe (nothing to resend; see C01.b/probe_frames_empty)')
             continue
         n_lost += 1
-        sinks = flow_sinks(F, c, ['StreamsState::retransmit'], via_field='stream_frames')
-        iters = [x for x in dl.calls() if x.is_('IntoIterator::into_iter') and contains_site_via_field(arg_desc(F, x, 0), c, 'stream_frames')]
         binds = binding_blocks(F, c)
-        okflow = bool(sinks) and bool(iters)
-        path = None
+        # for frame in info.stream_frames { streams.retransmit(frame) }
+        heads, why = set(), ''
+        for x in flow_sinks(F, c, ['StreamsState::retransmit'], via_field='stream_frames'):
+            lp = _for_loop(F, dl, x, 1)
+            if isinstance(lp, str):
+                why = lp
+            elif not (lp['X'][0] == 'field' and lp['X'][2] == 'stream_frames' and _payload_of(lp['X'][1], c)):
+                why = 'the loop runs over %s, not over all of the lost packets stream_frames' % D.render(lp['X'])[:200]
+            else:
+                heads.add(lp['H'])
+        okflow = bool(heads) and bool(binds)
         if okflow:
             for bb in binds:
-                path = path_avoiding(dl, [bb], dl.return_blocks(), {x.bb for x in iters})
+                path = path_avoiding(dl, [bb], rets, heads)
                 if path:
                     okflow = False
+                    why = fmt_path(dl, path)
         ctx.check(okflow, 'b', 'lost_stream_frames_retransmitted', dl, c.where(), 'for frame in info.stream_frames { streams.retransmit(frame) } on every path',
-                  'stream frames of a lost packet are not (always) handed to StreamsState::retransmit%s' % ((': ' + fmt_path(dl, path)) if path else ''))
-        rs = flow_sinks(F, c, ['BitOrAssign::bitor_assign', 'Retransmits::bitor_assign'], via_field='retransmits')
-        okr = bool(rs)
+                  'stream frames of a lost packet are not (always, all) handed to StreamsState::retransmit%s' % ((': ' + why) if why else ''))
+        # spaces[space].pending |= info.retransmits (same space the packet was taken from)
+        sp = _nobb(arg_desc(F, c, 0))
+        rs = []
+        for x in flow_sinks(F, c, BITOR, via_field='retransmits'):
+            a0, a1 = arg_desc(F, x, 0), arg_desc(F, x, 1)
+            if a1[0] == 'field' and a1[2] == 'retransmits' and _payload_of(a1[1], c) and a0[0] == 'field' and a0[2] == 'pending' and _nobb(a0[1]) == sp:
+                rs.append(x)
+        okr = bool(rs) and bool(binds)
         for bb in binds:
-            if rs and path_avoiding(dl, [bb], dl.return_blocks(), {x.bb for x in rs}):
+            if rs and path_avoiding(dl, [bb], rets, {x.bb for x in rs}):
                 okr = False
         ctx.check(okr, 'b', 'lost_control_frames_requeued', dl, c.where(), 'spaces[..].pending |= info.retransmits on every path',
-                  'retransmittable control frames of a lost packet are not re-queued')
+                  'retransmittable control frames of a lost packet are not (always) re-queued into the pending set of the space the packet was sent in')
     ctx.floor('b', 'lost_class_sites', n_lost, 1)
     # MTU probe SentFrames literal: built from Default with only non_retransmits set
     pt = ctx.pfn('Connection::poll_transmit')
@@ -79,15 +201,47 @@ def rule_b(ctx):
 def rule_c(ctx):
     F = ctx.facts
     opa = ctx.pfn('Connection::on_packet_acked')
-    cs = opa.calls_to('StreamsState::received_ack_of')
-    ok = bool(cs) and all(D.has_param(arg_desc(F, c, 1), name='info') and D.has_field(arg_desc(F, c, 1), 'stream_frames') for c in cs)
-    iters = [x for x in opa.calls() if x.is_('IntoIterator::into_iter') and D.has_field(arg_desc(F, x, 0), 'stream_frames') and D.has_param(arg_desc(F, x, 0), name='info')]
-    okall = ok and bool(iters) and path_avoiding(opa, [0], opa.return_blocks(), {x.bb for x in iters}) is None
+    rets = opa.return_blocks()
+    # for frame in info.stream_frames { received_ack_of(frame) }: the whole collection, every element, on every path
+    heads, why = set(), ''
+    for c in opa.calls_to('StreamsState::received_ack_of'):
+        lp = _for_loop(F, opa, c, 1)
+        if isinstance(lp, str):
+            why = lp
+        elif not _is_pfield(lp['X'], 'info', 'stream_frames'):
+            why = 'the loop runs over %s, not over all of info.stream_frames' % D.render(lp['X'])[:200]
+        else:
+            heads.add(lp['H'])
+    okall = bool(heads)
+    if okall:
+        p = path_avoiding(opa, [0], rets, heads)
+        if p:
+            okall, why = False, 'a path skips the loop: ' + fmt_path(opa, p)
     ctx.check(okall, 'c', 'acked_stream_frames_acknowledged', opa, opa.where(), 'for frame in info.stream_frames { received_ack_of(frame) } on every path',
-              'stream frames of an acked packet are not (always) handed to received_ack_of')
-    ra = opa.calls_to('StreamsState::reset_acked')
-    ctx.check(bool(ra) and all(D.has_field(arg_desc(F, c, 1), 'reset_stream') for c in ra), 'c', 'acked_resets_confirmed', opa, opa.where(), 'reset_acked(id) for info.retransmits.reset_stream',
-              'RESET_STREAM acknowledgements no longer reach reset_acked')
+              'stream frames of an acked packet are not (always, all) handed to received_ack_of%s' % ((': ' + why) if why else ''))
+    # if let Some(r) = info.retransmits.get() { for (id, _) in r.reset_stream.iter() { reset_acked(*id) } }: only the None
+    # edge of get() may skip the loop
+    heads, why, gets = set(), '', set()
+    for c in opa.calls_to('StreamsState::reset_acked'):
+        lp = _for_loop(F, opa, c, 1, proj=('0',))
+        if isinstance(lp, str):
+            why = lp
+            continue
+        X = lp['X']
+        g = _some_payload(X[1]) if X[0] == 'field' and X[2] == 'reset_stream' else None
+        if g is None or not (_is_call(g, 'ThinRetransmits::get') and len(g[3]) == 1 and _is_pfield(g[3][0], 'info', 'retransmits')):
+            why = 'the loop runs over %s, not over all of info.retransmits.get()?.reset_stream' % D.render(X)[:200]
+            continue
+        heads.add(lp['H'])
+        gets.add(g[4])
+    okr = bool(heads)
+    if okr:
+        ex = _none_edges(F, opa, lambda v: _is_call(v, 'ThinRetransmits::get') and len(v) > 4 and v[4] in gets)
+        reach = opa.reachable_from(0, avoid=heads, avoid_edges=ex)
+        if any(r in reach for r in rets):
+            okr, why = False, 'a path on which info.retransmits.get() is Some skips the reset_stream loop'
+    ctx.check(okr, 'c', 'acked_resets_confirmed', opa, opa.where(), 'reset_acked(id) for every id of info.retransmits.reset_stream, whenever retransmits is present',
+              'RESET_STREAM acknowledgements no longer (always, all) reach reset_acked%s' % ((': ' + why) if why else ''))
     who_may_call(ctx, 'c', 'received_ack_of_callers', ['StreamsState::received_ack_of'], ['Connection::on_packet_acked'], floor=1)
     who_may_call(ctx, 'c', 'on_packet_acked_callers', ['Connection::on_packet_acked'], ['Connection::on_ack_received', 'Connection::process_decrypted_packet'], floor=2)
 
@@ -95,20 +249,53 @@ def rule_c(ctx):
 def rule_d(ctx):
     F = ctx.facts
     pdp = ctx.pfn('Connection::process_decrypted_packet')
+    rets = pdp.return_blocks()
     r0 = pdp.calls_to('StreamsState::retransmit_all_for_0rtt')
     ctx.floor('d', 'retry_requeue_site', len(r0), 1)
-    drains = [c for c in pdp.calls_to('SentPackets::into_values')]
+    # the Retry drain = the drain of sent_packets after which retransmit_all_for_0rtt is reachable (the other drain
+    # discards rejected 0-RTT packets, C12)
+    drains = [c for c in pdp.calls_to('SentPackets::into_values') if any(x.bb in pdp.reachable_from(c.bb) for x in r0)]
     okd = False
     for c in drains:
-        rs = flow_sinks(F, c, ['BitOrAssign::bitor_assign', 'Retransmits::bitor_assign'], via_field='retransmits')
-        if rs and r0 and all(x.bb in pdp.reachable_from(c.bb) for x in r0):
+        # for info in zero_rtt.into_values() { spaces[Data].pending |= info.retransmits }: every element, every iteration
+        src = arg_desc(F, c, 0)
+        spaces = {_nobb(x[1]) for x in D.walk(src) if x[0] == 'field' and x[2] == 'sent_packets'}
+        heads, why = set(), ''
+        for x in pdp.calls():
+            if not x.is_(*BITOR) or x.bb not in pdp.reachable_from(c.bb):
+                continue
+            lp = _for_loop(F, pdp, x, 1, proj=('retransmits',))
+            if isinstance(lp, str):
+                if contains_site(arg_desc(F, x, 1), c):
+                    why = lp
+                continue
+            if not _is(lp['X'], c):
+                continue
+            a0 = arg_desc(F, x, 0)
+            if not (a0[0] == 'field' and a0[2] == 'pending' and _nobb(a0[1]) in spaces):
+                why = 'the retransmits are queued into %s, not into the pending set of the drained space' % D.render(a0)[:160]
+                continue
+            heads.add(lp['H'])
+        ok = bool(heads)
+        if ok:
+            p = path_avoiding(pdp, list(pdp.succ[c.bb]), rets, heads)
+            if p:
+                ok, why = False, 'a path after the drain skips the loop: ' + fmt_path(pdp, p)
+        if ok:
             # retransmit_all_for_0rtt must follow the drain on every path
             p = must_follow(F, pdp, c.bb, ['StreamsState::retransmit_all_for_0rtt'], depth=0, exempt_returns=())
-            okd = p is None
-            ctx.check(okd, 'd', 'retry_requeues_0rtt', pdp, c.where(), 'pending |= info.retransmits; streams.retransmit_all_for_0rtt()', 'after a Retry the 0-RTT frames are not all re-queued')
+            if p:
+                ok, why = False, 'a path after the drain avoids retransmit_all_for_0rtt: ' + fmt_path(pdp, p)
+        okd = okd or ok
+        ctx.check(ok, 'd', 'retry_requeues_0rtt', pdp, c.where(), 'pending |= info.retransmits for every drained packet; streams.retransmit_all_for_0rtt()',
+                  'after a Retry the 0-RTT frames are not all re-queued%s' % ((': ' + why) if why else ''))
     ctx.check(okd, 'd', 'retry_requeue_present', pdp, pdp.where(), 'found', 'Retry branch no longer re-queues the early packets frames')
     who_may_call(ctx, 'd', 'sendbuffer_0rtt_rewind_callers', ['SendBuffer::retransmit_all_for_0rtt'], ['StreamsState::retransmit_all_for_0rtt'], floor=1)
     who_may_write(ctx, 'd', 'sendbuffer_unsent_writers', 'SendBuffer', 'unsent', ['SendBuffer::poll_transmit', 'SendBuffer::retransmit_all_for_0rtt'], floor=2)
+
+
+def _is_range(d, start_pred, end_pred):
+    return d[0] == 'agg' and d[1] == 'adt' and d[2].endswith('Range::Range') and len(d[3]) == 2 and start_pred(d[3][0]) and end_pred(d[3][1])
 
 
 def rule_e(ctx):
@@ -117,16 +304,112 @@ def rule_e(ctx):
     who_may_call(ctx, 'e', 'sendbuffer_retransmit_callers', ['SendBuffer::retransmit'], ['StreamsState::retransmit'], floor=1)
     F = ctx.facts
     ra = ctx.pfn('StreamsState::received_ack_of')
-    for c in ra.calls_to('Send::ack'):
+    acks = ra.calls_to('Send::ack')
+    ctx.floor('e', 'ack_sites', len(acks), 1)
+    for c in acks:
         a = arg_desc(F, c, 1)
-        ctx.check(D.has_param(a, name='frame'), 'e', 'ack_applies_the_acked_frame', ra, c.where(), D.render(a), 'Send::ack is given something other than the acked frame')
+        # the argument IS the parameter, or a StreamMeta rebuilt field by field from it
+        ok = _is_pfield(a, 'frame')
+        if not ok and a[0] == 'agg' and a[1] == 'adt' and a[2].endswith('StreamMeta::StreamMeta') and len(a) > 4:
+            ok = all(_is_pfield(v, 'frame', f) or (f == 'offsets' and _is_range(v, lambda s: _is_pfield(s, 'frame', 'offsets', 'start'), lambda e: _is_pfield(e, 'frame', 'offsets', 'end')))
+                     for f, v in zip(a[4], a[3]))
+        ctx.check(ok, 'e', 'ack_applies_the_acked_frame', ra, c.where(), D.render(a), 'Send::ack is given something other than exactly the acked frame: %s' % D.render(a)[:200])
     rt = ctx.pfn('StreamsState::retransmit')
-    for c in rt.calls_to('SendBuffer::retransmit'):
+    rets = rt.return_blocks()
+    # only "the stream no longer exists" (None edge of the lookup of frame.id in self.send) may skip the re-queueing
+    gone = _none_edges(F, rt, lambda v: any(_is_call(x, 'HashMap::get_mut', 'HashMap::get', 'HashMap::entry') and len(x[3]) == 2 and _is_pfield(x[3][0], 'self', 'send')
+                                            and _is_pfield(x[3][1], 'frame', 'id') for x in D.walk(v)))
+    rq = rt.calls_to('SendBuffer::retransmit')
+    ctx.floor('e', 'retransmit_sites', len(rq), 1)
+    good = set()
+    for c in rq:
         a = arg_desc(F, c, 1)
-        ctx.check(D.has_param(a, name='frame') and D.has_field(a, 'offsets'), 'e', 'retransmit_requeues_lost_range', rt, c.where(), D.render(a), 'SendBuffer::retransmit is not given the lost frames offsets')
-    # fin_pending |= frame.fin
+        ok = _is_pfield(a, 'frame', 'offsets') or _is_range(a, lambda s: _is_pfield(s, 'frame', 'offsets', 'start'), lambda e: _is_pfield(e, 'frame', 'offsets', 'end'))
+        if ok:
+            good.add(c.bb)
+        ctx.check(ok, 'e', 'retransmit_requeues_lost_range', rt, c.where(), D.render(a), 'SendBuffer::retransmit is not given exactly the lost frames offsets: %s' % D.render(a)[:200])
+    if good:
+        reach = rt.reachable_from(0, avoid=good, avoid_edges=gone)
+        ctx.check(not any(r in reach for r in rets), 'e', 'retransmit_requeues_lost_range', rt, rt.where(), 'on every path on which the stream exists',
+                  'a lost range of a stream that still exists is not always re-queued (SendBuffer::retransmit can be skipped)')
+    # fin_pending |= frame.fin: whenever frame.fin is set fin_pending becomes true, and no store in this function can clear it
     fp = [(w, v) for w, v in store_values(ctx, 'send::Send', 'fin_pending') if F.root_of(w.body).id == rt.id]
-    ctx.check(any(D.has_field(v, 'fin') and D.has_param(v, name='frame') for w, v in fp), 'e', 'lost_fin_requeued', rt, rt.where(), 'fin_pending |= frame.fin', 'a lost FIN is no longer re-queued')
+    sets, clears = set(), []
+    for w, v in fp:
+        d = describer(F, w.body)
+        is_or = False
+        if v[0] == 'bin' and v[1] == 'BitOr' and w.body.id == rt.id and w.place[1] and isinstance(w.place[1][-1], list) and w.place[1][-1][0] == 'f':
+            old = ('field', d.place([w.place[0], w.place[1][:-1]], w.bb, w.idx), 'fin_pending')
+            is_or = (v[2] == old and _is_pfield(v[3], 'frame', 'fin')) or (v[3] == old and _is_pfield(v[2], 'frame', 'fin'))
+        is_true = v[0] == 'const' and v[1] == 'int' and str(v[2]) == '1'
+        if (is_or or is_true) and w.body.id == rt.id:
+            sets.add(w.bb)
+        else:
+            clears.append((w, v))
+    nofin = {(br.bb, tgt) for br, t, tgt in bool_edges(ctx, rt, lambda x: _is_pfield(x, 'frame', 'fin')) if not t}
+    okf = bool(sets) and not clears
+    whyf = ''
+    if clears:
+        whyf = ': the store at %s writes %s, which can clear a FIN that is already pending' % (clears[0][0].where(), D.render(clears[0][1])[:160])
+    elif sets:
+        reach = rt.reachable_from(0, avoid=sets, avoid_edges=gone | nofin)
+        if any(r in reach for r in rets):
+            okf, whyf = False, ': a path on which the stream exists and frame.fin is set skips the store'
+    ctx.check(okf, 'e', 'lost_fin_requeued', rt, rt.where(), 'fin_pending |= frame.fin', 'a lost FIN is no longer (always) re-queued, or a pending FIN can be cleared' + whyf)
+    rule_e_split(ctx)
+
+
+def rule_e_split(ctx):
+    """SendBuffer::poll_transmit, retransmission branch: the popped lost range R is split at ONE point `end`:
+    R.start..end is returned and, unless end == R.end, end..R.end goes back into self.retransmits."""
+    F = ctx.facts
+    pt = ctx.pfn('SendBuffer::poll_transmit')
+    d = describer(F, pt)
+    rets = pt.return_blocks()
+    pops = [c for c in pt.calls() if _meth(short(c.f)) == 'pop_min' and c.args and _is_pfield(arg_desc(F, c, 0), 'self', 'retransmits')]
+    ctx.floor('e', 'retransmit_pop_sites', len(pops), 1)
+    for c in pops:
+        isR = lambda x, f: x[0] == 'field' and x[2] == f and _payload_of(x[1], c)
+        why = ''
+        somes = [(br.bb, br.target(1)) for br in branches(F, pt) if br.desc[0] == 'discr' and _is(br.desc[1], c)]
+        ok = len(somes) == 1
+        if not ok:
+            why = 'branch on the popped range not found'
+        else:
+            hb, S = somes[0]
+            # values returned in the retransmission branch
+            outs = []
+            for df in pt.defs_of(0):
+                if df[0] == 'stmt' and df[1] in pt.live_blocks() and edge_dominates(pt, hb, S, df[1]) and df[1] in pt.reachable_from(S):
+                    outs.append((df[1], d.rvalue(df[3], df[1], df[2], 0)))
+            if not outs or path_avoiding(pt, [S], rets, {bb for bb, v in outs}):
+                ok, why = False, 'the value returned for a retransmission is not a tuple built in that branch'
+            for bb, v in outs:
+                if not ok:
+                    break
+                if not (v[0] == 'agg' and v[1] == 'tuple' and len(v[3]) == 2 and _is_range(v[3][0], lambda s: isR(s, 'start'), lambda e: True)):
+                    ok, why = False, 'the returned range does not start at the popped range start: %s' % D.render(v)[:200]
+                    break
+                E = v[3][0][3][1]
+                if isR(E, 'end'):
+                    continue        # whole range returned: nothing left over
+                ins = {x.bb for x in pt.calls() if _meth(short(x.f)) == 'insert' and len(x.args) == 2 and _is_pfield(arg_desc(F, x, 0), 'self', 'retransmits')
+                       and _is_range(arg_desc(F, x, 1), lambda s: s == E, lambda e: isR(e, 'end'))}
+                clamped = _is_call(E, 'Ord::min', 'cmp::min') and any(isR(x, 'end') for x in E[3])
+                ex = set()
+                for br in branches(F, pt):
+                    for truth in (True, False):
+                        rel = relation_on(br.desc, truth)
+                        if rel is None:
+                            continue
+                        op, a, b = rel
+                        if (op == 'Eq' and ((a == E and isR(b, 'end')) or (b == E and isR(a, 'end')))) or (op == 'Le' and clamped and isR(a, 'end') and b == E):
+                            ex.add((br.bb, br.target(1 if truth else 0)))
+                if bb in pt.reachable_from(S, avoid=ins, avoid_edges=ex):
+                    ok, why = False, ('the part of the popped range behind the returned end (%s) is not always put back into self.retransmits from that same end '
+                                      '(insert(end..range.end) unless end == range.end)' % D.render(E)[:160])
+        ctx.check(ok, 'e', 'retransmit_split_conserves_range', pt, c.where(), '(range.start..end) returned, (end..range.end) re-queued unless end == range.end, one `end`',
+                  'bytes of a lost range can be dropped from the retransmit queue without being sent: ' + why)
 
 
 def rule_f(ctx):
